@@ -615,6 +615,10 @@ def bitmap_problems(glyphs, overrides, result):
                 bad.append((name, "image bytes differ"))
             if (strike.bitmapSizeTable.ppemX, strike.bitmapSizeTable.ppemY) != (ppem, ppem):
                 bad.append((name, "ppem", strike.bitmapSizeTable.ppemX, ppem))
+            hori = strike.bitmapSizeTable.hori
+            lh = round(F * ppem / cfg.upem)
+            if hori.ascender != round(cfg.ascender * ppem / cfg.upem) or hori.descender != -(lh - hori.ascender):
+                bad.append((name, "strike line metrics", hori.ascender, hori.descender))
             m = bm.metrics
             if m.Advance != adv_px:
                 bad.append((name, "pixel advance", m.Advance, adv_px))
